@@ -7,7 +7,7 @@ from ..engines import totality as T
 def run(ctx):
     # language-level slips in the modules the property is anchored in (engine Y)
     from ..engines import gotchas as GY
-    GY.run(ctx, ('comb_spec_searcher', 'class_db', 'rule_db.base', 'rule_db.forest'))
+    GY.run(ctx, ('strategies.rule', 'strategies.strategy', 'comb_spec_searcher', 'class_db', 'rule_db.base', 'rule_db.forest'))
     ctx.floor("Y", 1)
     ctx.extra["explanation"] = (
         "static analysis (ast, no execution): provenance of every (start, ends, rule) triple that "
@@ -49,3 +49,10 @@ def run(ctx):
     ctx.floor("A5", 6)
     ctx.floor("A7", 12)
     ctx.floor("A6", 3)
+    # the shifts recorded with a rule are position by position those of its own children (engine S, quick parameters)
+    from ..engines import sizecheck as SC
+    SC.s4_forest_keys(ctx)
+    for fam in SC.strategy_families(ctx.P):
+        st = SC.run_family(ctx, fam, 3, 2)
+        SC.run_derived(ctx, fam, 3, st)
+    ctx.floor("S4", 8)
